@@ -30,6 +30,28 @@ binding:   (a) every CASE line of TLC (class sequence + the block structure the 
                observables (no warning, strict returns, str() = text, block contents as written) are
                verdict observables.  Every validation run also contains two hand-written golden
                traces (must be accepted) and seven corruptions of them (must be rejected).
+histories: formatting is part of the history (Mode "hist", shared with C15): on every two-block changelog
+           parsed from a well-formed text, <= 3 (thorough 4) calls out of Fmt (str(changelog) / str(block)),
+           attribute assignment on ANY block through the block object, in-place container edits
+           (other_pairs[k] = v, changes().append / insert / del, add_trailing_line), new_block, add_change;
+           invariant FormatIsCurrent: every observed output is the reference Format of the CURRENT document.
+           Negative controls Bug = "BlockRenderCache" / "OlderBlocksMemo" (the two round-2 seeded changes)
+           -> FormatIsCurrent.  Binding: every history that ends in a formatting call carries TLC's reference
+           output as line tokens; it is concretized with the generator's own grammar functions and must equal
+           what str() / bytes() / write_to_open_file() / str(block) return after the same calls on the real
+           object (formatting calls before and between the edits as in the history); the output must parse
+           strictly without warning to blocks that expose the same fields as the edited object.  Recorded
+           formatting histories (up to 12 random calls, formatted after some of them only) on well-formed
+           changelogs are validated by TLC; there `output = Format(current document)` is a verdict.
+sizes:     notes/SIZE_STRESS.md: the abstract case stays, the concretization gets a size dimension: package
+           names / versions / lines / names of 33, 255, 1024, 8193, 65537 characters, epochs >= 2**31 and
+           2**63, 100 distributions, 100 key=value pairs, boundary dates, runs of 100 / 1000 change or blank
+           lines per abstract line, the block sequence repeated 100 / 256 / 1000 times, 100 / 1000 older
+           entries appended below a formatting history.  Length-independent by construction: a run of
+           change lines takes the CChange self-loop, blank lines HBlank / CBlank, block follows block as in
+           the grammar (closed LTS of C15); expectations stay TLC's.
+objects:   earlier Changelog objects are kept alive and re-verified (text and fields) after other objects
+           were parsed, edited and formatted.
 domain:    DESIGN D1 (no str.splitlines() boundary character inside a line), D2 (valid versions); exactly
            one space after ';' and ', ' between key=value items, "urgency" first and lower-case, no
            commas / trailing white space in values, exactly two spaces before the date, blank lines are
@@ -43,8 +65,8 @@ import changelog_common as cc
 
 MANIFEST = dict(
     technique="TLA+ spec Changelog (five-state parser automaton with incremental outputs + formatter as inverse operator + deb-changelog(5) generator automaton in lock-step) model-checked by TLC over all bounded well-formed texts; every TLC case replayed with grammar-driven concretizations into Changelog(text, strict=True); prefix-closure traces of random well-formed changelogs validated by TLC (TraceChangelog) on independently classified lines",
-    text="TLC enumerates every well-formed changelog of up to 3 blocks with up to 3 body lines each (change lines and blank lines in any order), up to 2 leading and up to 2 separating blank lines, runs the parser automaton in lock-step with the generator and checks in every accepting state that no branch warned, that formatting the parsed document yields the consumed text and that every block holds exactly the header, change lines, trailer and trailing lines the generator wrote, in file order. Each enumerated text carries the block structure computed by the specification and is replayed k times with generated packages, versions (epochs, hyphens, tildes), 1-3 distributions with dots and hyphens, urgency with and without comment, 0-2 extra key=value pairs, change text with non-ASCII, '#', ':', tabs and trailer look-alikes, trailers with and without weekday, 1- and 2-digit day and hour, arbitrary zones, quoted / bracketed / empty names and mails: strict parsing under warnings-as-errors must return, str() must reproduce the text byte for byte and every block attribute must equal what was written. In the other direction random well-formed changelogs of up to 60 lines are parsed prefix by prefix, lines are classified by an independent classifier and TLC replays the automaton on the observed counts, flags and interned block contents.",
-    note="Small scope for the exhaustive part (<= 3 blocks x <= 3 body lines); payload characters are sampled (k concretizations per case, seeded). Lines never contain a str.splitlines() boundary character (DESIGN D1). Trusted: TLC, the concretizer (it also states what it wrote), the independent classifier, the projections. Three spec-level negative controls and corrupted control traces are required to fail in every run.",
+    text="TLC enumerates every well-formed changelog of up to 3 blocks with up to 3 body lines each (change lines and blank lines in any order), up to 2 leading and up to 2 separating blank lines, runs the parser automaton in lock-step with the generator and checks in every accepting state that no branch warned, that formatting the parsed document yields the consumed text and that every block holds exactly the header, change lines, trailer and trailing lines the generator wrote, in file order. Each enumerated text carries the block structure computed by the specification and is replayed k times with generated packages, versions (epochs, hyphens, tildes), 1-3 distributions with dots and hyphens, urgency with and without comment, 0-2 extra key=value pairs, change text with non-ASCII, '#', ':', tabs and trailer look-alikes, trailers with and without weekday, 1- and 2-digit day and hour, arbitrary zones, quoted / bracketed / empty names and mails: strict parsing under warnings-as-errors must return, str() must reproduce the text byte for byte and every block attribute must equal what was written. Formatting is part of the history: TLC enumerates short histories of formatting calls, attribute assignments on any block, in-place container edits, new_block and add_change on two-block changelogs and hands out the reference text of the current document for every formatting call; the real object must return exactly that text (after having been formatted before and between the edits) and it must parse back to the same fields. In the other direction random well-formed changelogs of up to 60 lines are parsed prefix by prefix, lines are classified by an independent classifier and TLC replays the automaton on the observed counts, flags and interned block contents.",
+    note="Small scope for the exhaustive part (<= 3 blocks x <= 3 body lines, formatting histories of <= 4 calls on two-block changelogs); payload characters are sampled (k concretizations per case, seeded; every 150th case size-stressed: long names/versions/lines, epochs >= 2**31, 100 pairs, runs of 100-1000 lines, 100-1000 blocks). Lines never contain a str.splitlines() boundary character (DESIGN D1). Trusted: TLC, the concretizer (it also states what it wrote), the independent classifier, the projections. Five spec-level negative controls (among them the two formatter caches of the round-2 seeded changes) and corrupted control traces are required to fail in every run.",
     design="5 (C04)")
 
 NEG_CONTROLS = [("trailingFirst", {"RoundTrip"}),
@@ -81,7 +103,29 @@ def neg_control(ctx, bug, want):
     return r.violated
 
 
-def replay_case(ctx, rng, case, k, key, canonical_first):
+def hist_neg_control(ctx, bug, want):
+    r = ctx.tlc("Changelog", cc.hist_cfg(3, 0, bug=bug, emit=False), count=False, workers=1, want_tags=set(), java_opts=cc.jopts(ctx))
+    if r.violated not in want:
+        raise core.MachineryError("spec-level negative control Bug=%s: expected one of %s violated, TLC reports %r"
+                                  % (bug, sorted(want), r.violated))
+    return r.violated
+
+
+def replay_stress(ctx, rng, case, mode, big):
+    """one size-stressed concretization of an enumerated text (notes/SIZE_STRESS.md)"""
+    lines, contents, struct = cc.stress_case(rng, case["t"], case["doc"], mode, big)
+    msg = cc.c04_check(lines, contents, struct)
+    ctx.case_seen(("stress", mode, "".join(x[0] for x in case["t"])), True)
+    if msg:
+        keep = len(lines) <= 400
+        ctx.violation({"kind": "case", "classes": case["t"], "lines": lines if keep else lines[:400], "contents": contents if keep else contents[:400],
+                       "struct": struct if keep else {"ini": [], "bl": []}, "stress": mode, "truncated": not keep},
+                      "size-stressed concretization (%s, %d lines, %d blocks): %s" % (mode, len(lines), len(struct["bl"]), msg))
+        return False
+    return True
+
+
+def replay_case(ctx, rng, case, k, key, canonical_first, alive=None):
     """k concretizations.  canonical_first: the first one is the canonical minimal form; otherwise the
     canonical form is only tried after a failure, to attribute it to structure or to payload"""
     classes = case["t"]
@@ -90,7 +134,7 @@ def replay_case(ctx, rng, case, k, key, canonical_first):
     for j in range(k):
         canonical = canonical_first and j == 0
         lines, contents = cc.conc_text(rng, classes, canonical=canonical, empty_blank=True)
-        msg = cc.c04_check(lines, contents, struct)
+        msg = cc.c04_check(lines, contents, struct, alive if j == k - 1 else None)
         ctx.case_seen(key, nontrivial)
         if msg:
             if not canonical:
@@ -118,13 +162,26 @@ def run(ctx):
     for i in range(ntr):
         _cls, lines, _ = cc.gen_wellformed(rng, rng.choice([6, 12, 25, maxlines]))
         traces.append(cc.record_parse_trace(lines, aea=bool(i % 5 == 0), wf=True, doc_every=7))
+    # formatting histories on well-formed changelogs: calls on any block through the block object, in-place
+    # container edits, str(block); the changelog is formatted after some calls only (C04 domain: wf = True)
+    for i in range(ntr // 2):
+        _cls, lines, _ = cc.gen_wellformed(rng, rng.choice([4, 8, 14, 20]))
+        t = cc.record_edit_trace(rng, lines, aea=False, nops=rng.randint(2, 12), wf=True, stress=(i % 10 == 9))
+        if t is None:
+            ctx.violation({"kind": "case", "classes": [], "lines": lines, "contents": [], "struct": {"ini": [], "bl": []}}, "lenient constructor raised on a well-formed text")
+            continue
+        traces.append(t)
     cfg = "MC_Changelog_c04_quick.cfg" if quick else "MC_Changelog_c04.cfg"
     with ThreadPoolExecutor(max_workers=5) as ex:
         f_traces = ex.submit(cc.validate, ctx, traces)
         f_bnd = ex.submit(ctx.tlc_must_hold, "Changelog", cfg, workers=4 if quick else 8, want_tags={"CASE"}, java_opts=cc.jopts(ctx))
+        hjobs = [cc.hist_cfg(3, 1)] if quick else [cc.hist_cfg(3, 1), cc.hist_cfg(4, 0)]
+        f_hist = [ex.submit(ctx.tlc_must_hold, "Changelog", h, workers=2 if quick else 6, want_tags={"CASE"}, java_opts=cc.jopts(ctx)) for h in hjobs]
         f_neg = [ex.submit(neg_control, ctx, bug, want) for bug, want in NEG_CONTROLS]
+        f_hneg = [ex.submit(hist_neg_control, ctx, bug, want) for bug, want in cc.HIST_NEG]
         r = f_bnd.result()
-        ctx.extra["spec_negative_controls"] = {bug: f.result() for (bug, _), f in zip(NEG_CONTROLS, f_neg)}
+        r_hist = [f.result() for f in f_hist]
+        ctx.extra["spec_negative_controls"] = {bug: f.result() for (bug, _), f in zip(NEG_CONTROLS + cc.HIST_NEG, f_neg + f_hneg)}
     ctx.tlc_runs.sort(key=lambda x: (-x["distinct"], str(x["violated"])))
     cases = [c for c in r.printed.get("CASE", []) if isinstance(c, dict)]
     if not cases or len(cases) != len(r.printed.get("CASE", [])):
@@ -139,12 +196,46 @@ def run(ctx):
     # (a) spec -> code
     k = 3 if quick else 1
     n = 0
-    for c in cases:
-        if not replay_case(ctx, rng, c, k, "case:" + "".join(x[0] for x in c["t"]), canonical_first=quick):
+    alive = cc.Alive()
+    every = max(1, len(cases) // 40)
+    nstress = 0
+    stress_every = max(1, len(cases) // (45 if quick else 600))
+    big_at = {len(cases) // 3, 2 * len(cases) // 3} if quick else set(range(0, len(cases), max(1, len(cases) // 12)))
+    for ci, c in enumerate(cases):
+        if not replay_case(ctx, rng, c, k, "case:" + "".join(x[0] for x in c["t"]), canonical_first=quick,
+                           alive=alive if ci % every == 0 else None):
             if len(ctx.violations) >= 5:
                 break
         n += 1
+        if c["doc"]["bl"] and (ci % stress_every == 0 or ci in big_at):
+            big = ci in big_at
+            mode = ["payload", "payload", "lines", "blocks"][nstress % 4] if not big else ["blocks", "lines"][nstress % 2]
+            nstress += 1
+            if not replay_stress(ctx, rng, c, mode, big) and len(ctx.violations) >= 5:
+                break
+    m = alive.recheck()
+    if m:
+        ctx.violation({"kind": "alive", "note": m}, m)
     ctx.extra["cases_replayed"] = n
+    ctx.extra["size_stressed_concretizations"] = nstress
+
+    # (a') formatting as part of the history
+    hcases = []
+    for rh in r_hist:
+        hcases += [c for c in rh.printed.get("CASE", []) if isinstance(c, dict)]
+    hcases.sort(key=lambda c: (len(c["ops"]), len(c["t"]), json.dumps(c, sort_keys=True)))
+    seen = set()
+    hcases = [c for c in hcases if not (cc.json_key([c["t"], c["ops"]]) in seen or seen.add(cc.json_key([c["t"], c["ops"]])))]
+    nh = cc.replay_hist_cases(ctx, rng, hcases, c04=True, nconc=2 if quick else 3, nstress=6 if quick else 60, alive=alive)
+    m = alive.recheck()
+    if m:
+        ctx.violation({"kind": "alive", "note": m}, m)
+    ctx.extra["format_histories"] = {"states": sum(rh.distinct for rh in r_hist), "cases": len(hcases), "replayed": nh}
+    if hcases:
+        hc = hcases[len(hcases) * 2 // 3]
+        ctx.sample("formatting history on %s: %s; reference output from TLC: %s" % (
+            "".join(x[0] for x in hc["t"]), json.dumps(hc["ops"], separators=(",", ":")), json.dumps(hc["out"], separators=(",", ":"))[:300]))
+    n += nh
     per_class = {}
     for c in cases:
         for x in c["t"]:
@@ -164,18 +255,27 @@ def run(ctx):
     for i in range(len(traces)):
         ctx.distinct.add(("trace", i))
     ctx.extra["traces_recorded"] = len(traces)
-    ctx.extra["trace_lines"] = sum(len(t["lines"]) for t in traces)
+    ctx.extra["trace_lines"] = sum(len(t["lines"]) for t in traces if t["kind"] == "parse")
+    ctx.extra["history_trace_calls"] = sum(len(t["ops"]) for t in traces if t["kind"] == "edit")
     ctx.extra["traces_rejected"] = len(viol)
     ctx.extra["traces_drifting"] = len(drift)
     if len(drift) * 20 > len(traces) and not viol and not ctx.violations:
         raise core.MachineryError("%d of %d traces drift from the specification in diagnostic observables" % (len(drift), len(traces)))
     for i in drift[:10]:
-        ctx.drift("well-formed trace %d: diagnostic mismatch at line %d: %r" % (i, info.get(i, 0) + 1, traces[i - 1]["text"][:info.get(i, 0) + 1][-1:]))
+        ctx.drift("well-formed %s trace %d: diagnostic mismatch at event %d" % (traces[i - 1]["kind"], i, info.get(i, 0) + 1))
     t0 = traces[0]
     ctx.sample("trace (first 2 events of %d): %s" % (len(t0["lines"]), json.dumps(t0["lines"][:2], separators=(",", ":"))))
     for i in viol[:5]:
         t = traces[i - 1]
         at = info.get(i, 0)
+        if t["kind"] == "edit":
+            ev = t["ops"][at] if at < len(t["ops"]) else None
+            ctx.violation({"kind": "trace", "trace": {"kind": "edit", "text": t["text"], "aea": t["aea"], "wf": True, "calls": t["calls"]},
+                           "first_unexplained_event": at + 1},
+                          "history on a well-formed changelog, call %d %r: %s" % (
+                              at + 1, [t["calls"][at][k] for k in ("op", "i", "x")] if at < len(t["calls"]) else None,
+                              "the formatted text is not the text of the current document / not a normal form" if ev and ev.get("ok") else "unexpected exception"))
+            continue
         ctx.violation({"kind": "trace", "trace": {"kind": "parse", "text": t["text"], "aea": t["aea"], "wf": True},
                        "first_unexplained_line": at + 1},
                       "well-formed changelog: observation after line %d (%r) not explained by the specification: %s"
@@ -184,14 +284,23 @@ def run(ctx):
 
 
 def replay(ctx, case):
+    if case["kind"] == "case" and case.get("truncated"):
+        return "the size-stressed text was too large to record; re-run ./check C04 with the same seed"
     if case["kind"] == "case":
         contents = [tuple(c) if isinstance(c, list) else c for c in case["contents"]]
         for c in contents:
             if isinstance(c, dict):
                 c["pairs"] = [tuple(p) for p in c["pairs"]]
         return cc.c04_check(case["lines"], contents, case["struct"])
+    if case["kind"] == "hist":
+        contents = [tuple(c) if isinstance(c, list) else c for c in case["contents"]]
+        return cc.run_hist(dict(case, contents=contents), c04=True)
+    if case["kind"] == "alive":
+        return "cross-object interference is not replayable from a single case; re-run ./check C04 (%s)" % case.get("note")
     if case["kind"] == "trace":
         t = cc.rerecord(case["trace"])
+        if t is None:
+            return "lenient constructor raised"
         viol, _drift, info = cc.validate(ctx, [t])
         if viol:
             return "observation after line %d still not explained by the specification" % (info.get(1, 0) + 1)
